@@ -465,6 +465,17 @@ pub fn h(a_mask: N) -> MultiOp {
     h::h(a_mask)
 }
 
+/// Phase shift gate `diag(1, e^{iλ})`.
+///
+/// Differs from [`RZ(λ)`](rz) by a global phase only, which becomes observable
+/// as soon as the gate is controlled (QFT).
+#[inline(always)]
+pub(crate) fn phase_shift(lam: R, a_mask: N) -> MultiOp {
+    pauli::u1(a_mask, [C_ONE, C_ZERO, C_ZERO, C::from_polar(1.0, lam)])
+        .expect("Mask should contain 1 bit!")
+        .into()
+}
+
 /// [`U1(λ)`](u1) gate.
 ///
 /// First universal gate. Equivalent to [`RZ(λ)`](rz) and [`U3(0,0,λ)`](u3).
